@@ -5,8 +5,14 @@ use crate::linalg::{
 };
 
 /// Computes the Cholesky decomposition of the matrix `a` using the Cholesky-Banachiewicz
-/// algorithm.
+/// algorithm. Panics if `a` is not positive definite.
 pub fn cholesky(a: &[f64]) -> Vec<f64> {
+    try_cholesky(a).expect("matrix not positive definite")
+}
+
+/// Cholesky-Banachiewicz factorisation. Returns `None` as soon as a pivot is not positive, i.e. when
+/// the symmetric matrix `a` is not positive definite.
+pub fn try_cholesky(a: &[f64]) -> Option<Vec<f64>> {
     assert!(is_symmetric(a));
     let n = is_square(a).unwrap();
 
@@ -17,14 +23,18 @@ pub fn cholesky(a: &[f64]) -> Vec<f64> {
             let s = dot(&l[(j * n)..(j * n + j)], &l[(i * n)..(i * n + j)]);
 
             if i == j {
-                l[i * n + j] = (a[i * n + i] - s).sqrt();
+                let pivot = a[i * n + i] - s;
+                if !(pivot > 0.) {
+                    return None;
+                }
+                l[i * n + j] = pivot.sqrt();
             } else {
                 l[i * n + j] = (a[i * n + j] - s) / l[j * n + j];
             }
         }
     }
 
-    l
+    Some(l)
 }
 
 /// Solves the system Lx=b, where L is a lower triangular matrix (e.g., a Cholesky decomposed
